@@ -136,8 +136,8 @@ def harness(ast0, ast1, roles, orig_names, bound_names):
             r0 = refast.Run(copy_store(store), funcs).run(ast0)
         except refast.UndefinedRead:
             raise symx.Abort()
-        except (IndexError, ZeroDivisionError, OverflowError):
-            raise symx.Abort()
+        except (IndexError, ZeroDivisionError, OverflowError, TypeError):
+            raise symx.Abort()        # the ORIGINAL program fails on this path: outside the claim
         bad = None
         try:
             r1 = refast.Run(copy_store(store), funcs).run(ast1)
@@ -145,6 +145,10 @@ def harness(ast0, ast1, roles, orig_names, bound_names):
             bad = "after the pass, variable %s is read before it is set" % u.name
         except (IndexError, ZeroDivisionError, OverflowError):
             raise symx.Abort()
+        except TypeError as e:
+            # the original ran through on this path; a type error afterwards means the pass changed what a variable
+            # holds (e.g. an array overwritten by a scalar and then subscripted)
+            bad = "the original phase runs, after the pass it raises TypeError: %s" % str(e)[:120]
         if bad is None:
             bad = compare_runs(prover, r0, r1, orig_names)
         if bad is None:
@@ -298,7 +302,9 @@ def replay(d):
             bad = compare_runs(prover, r0, r1, names0)
         except refast.UndefinedRead as u:
             bad = "after the pass, variable %s is read before it is set" % u.name
-        except (IndexError, ZeroDivisionError, OverflowError, TypeError):
+        except TypeError as e:
+            bad = "the original phase runs, after the pass it raises TypeError: %s" % str(e)[:120]
+        except (IndexError, ZeroDivisionError, OverflowError):
             continue
         if bad is not None:
             return {"reproduced": True, "detail": "program %s phase %s pass %s, pre-state %s: %s\nafter the pass:\n%s"
